@@ -623,6 +623,14 @@ Linear_Expression_Impl<Row>
           i = row.reset(i);
           continue;
         }
+        if (*j == 0) {
+          // A zero stored in (a dense) `y': do not store it in `*this'.
+          if (i.index() == j.index()) {
+            i = row.reset(i);
+          }
+          ++j;
+          continue;
+        }
         if (i.index() > j.index()) {
           i = row.insert(i, j.index(), *j);
           (*i) *= c2;
@@ -640,9 +648,11 @@ Linear_Expression_Impl<Row>
         i = row.reset(i);
       }
       while (j != j_last) {
-        i = row.insert(i, j.index(), *j);
-        (*i) *= c2;
-        // No need to increment i here.
+        if (*j != 0) {
+          i = row.insert(i, j.index(), *j);
+          (*i) *= c2;
+          // No need to increment i here.
+        }
         ++j;
       }
     }
